@@ -239,6 +239,10 @@ TWIN_FILES = {
 # ---------------------------------------------------------------------------------
 TEXTUAL = [
     # prop, id, file, old, new
+    ('C04', 'cp-normalize-threshold-guard', 'tensorly/cp_tensor.py', '        scales_non_zero = T.where(\n            scales == 0, T.ones(T.shape(scales), **T.context(factor)), scales\n        )\n        weights = weights * scales\n', '        scales_non_zero = T.where(\n            scales < 1e-12, T.ones(T.shape(scales), **T.context(factor)), scales\n        )\n        weights = weights * scales\n'),
+    ('C04', 'cp-normalize-guard-branches-swapped', 'tensorly/cp_tensor.py', '        scales_non_zero = T.where(\n            scales == 0, T.ones(T.shape(scales), **T.context(factor)), scales\n        )\n        weights = weights * scales\n', '        scales_non_zero = T.where(\n            scales != 0, T.ones(T.shape(scales), **T.context(factor)), scales\n        )\n        weights = weights * scales\n'),
+    ('C14', 'tucker-user-init-orthonormalised', 'tensorly/decomposition/_tucker.py', '        (core, factors) = init\n        factors = list(factors)\n', '        (core, factors) = init\n        factors = [tl.qr(f)[0] for f in factors]\n'),
+    ('C05', 'symeig-floor-dropped-one-branch', 'tensorly/tenalg/svd.py', '        S = tl.sqrt(tl.clip(S, tl.eps(S.dtype)))\n        V = tl.dot(tl.transpose(matrix), U / tl.reshape(S, (1, -1)))', '        S = tl.sqrt(tl.clip(S, 0))\n        V = tl.dot(tl.transpose(matrix), U / tl.reshape(S, (1, -1)))'),
     ('C12', 'memo-key-without-dtype', 'tensorly/tenalg/proximal.py', '    diag_matrix = tl.tensor(\n        tl.diag(2 * regularizer * tl.ones(tl.shape(tensor)[0]) + 1)\n        + tl.diag(-regularizer * tl.ones(tl.shape(tensor)[0] - 1), k=-1)\n        + tl.diag(-regularizer * tl.ones(tl.shape(tensor)[0] - 1), k=1),\n        **tl.context(tensor)\n    )\n    return tl.solve(diag_matrix, tensor)\n', '    key = (tl.get_backend(), tl.shape(tensor)[0], float(regularizer))\n    diag_matrix = _SYSTEMS.get(key)\n    if diag_matrix is None:\n        diag_matrix = tl.tensor(\n            tl.diag(2 * regularizer * tl.ones(tl.shape(tensor)[0]) + 1)\n            + tl.diag(-regularizer * tl.ones(tl.shape(tensor)[0] - 1), k=-1)\n            + tl.diag(-regularizer * tl.ones(tl.shape(tensor)[0] - 1), k=1),\n            **tl.context(tensor)\n        )\n        _SYSTEMS[key] = diag_matrix\n    return tl.solve(diag_matrix, tensor)\n\n\n_SYSTEMS = {}\n'),
     ('C12', 'memo-value-edited-in-place', 'tensorly/tenalg/proximal.py', '    diag_matrix = tl.tensor(\n        tl.diag(2 * regularizer * tl.ones(tl.shape(tensor)[0]) + 1)\n        + tl.diag(-regularizer * tl.ones(tl.shape(tensor)[0] - 1), k=-1)\n        + tl.diag(-regularizer * tl.ones(tl.shape(tensor)[0] - 1), k=1),\n        **tl.context(tensor)\n    )\n    return tl.solve(diag_matrix, tensor)\n', '    key = (tl.get_backend(), tl.shape(tensor)[0], float(regularizer), str(tl.context(tensor)))\n    diag_matrix = _SYSTEMS.get(key)\n    if diag_matrix is None:\n        diag_matrix = tl.tensor(\n            tl.diag(2 * regularizer * tl.ones(tl.shape(tensor)[0]) + 1)\n            + tl.diag(-regularizer * tl.ones(tl.shape(tensor)[0] - 1), k=-1)\n            + tl.diag(-regularizer * tl.ones(tl.shape(tensor)[0] - 1), k=1),\n            **tl.context(tensor)\n        )\n        _SYSTEMS[key] = diag_matrix\n    diag_matrix += 0 * regularizer\n    return tl.solve(diag_matrix, tensor)\n\n\n_SYSTEMS = {}\n'),
     ('C18', 'memo-key-without-dtype', 'tensorly/tenalg/proximal.py', '    diag_matrix = tl.tensor(\n        tl.diag(2 * regularizer * tl.ones(tl.shape(tensor)[0]) + 1)\n        + tl.diag(-regularizer * tl.ones(tl.shape(tensor)[0] - 1), k=-1)\n        + tl.diag(-regularizer * tl.ones(tl.shape(tensor)[0] - 1), k=1),\n        **tl.context(tensor)\n    )\n    return tl.solve(diag_matrix, tensor)\n', '    key = (tl.get_backend(), tl.shape(tensor)[0], float(regularizer))\n    diag_matrix = _SYSTEMS.get(key)\n    if diag_matrix is None:\n        diag_matrix = tl.tensor(\n            tl.diag(2 * regularizer * tl.ones(tl.shape(tensor)[0]) + 1)\n            + tl.diag(-regularizer * tl.ones(tl.shape(tensor)[0] - 1), k=-1)\n            + tl.diag(-regularizer * tl.ones(tl.shape(tensor)[0] - 1), k=1),\n            **tl.context(tensor)\n        )\n        _SYSTEMS[key] = diag_matrix\n    return tl.solve(diag_matrix, tensor)\n\n\n_SYSTEMS = {}\n'),
@@ -476,6 +480,10 @@ def gen_textual() -> List[Variant]:
 
 
 TEXTUAL_TWINS = [
+    ('C04', 'cp-normalize-guard-as-positive-test', 'tensorly/cp_tensor.py', '        scales_non_zero = T.where(\n            scales == 0, T.ones(T.shape(scales), **T.context(factor)), scales\n        )\n        weights = weights * scales\n', '        scales_non_zero = T.where(\n            scales > 0, scales, T.ones(T.shape(scales), **T.context(factor))\n        )\n        weights = weights * scales\n'),
+    ('C04', 'cp-normalize-guard-zero-on-the-left', 'tensorly/cp_tensor.py', '        scales_non_zero = T.where(\n            scales == 0, T.ones(T.shape(scales), **T.context(factor)), scales\n        )\n        weights = weights * scales\n', '        scales_non_zero = T.where(\n            0 == scales, T.ones(T.shape(scales), **T.context(factor)), scales\n        )\n        weights = weights * scales\n'),
+    ('C05', 'symeig-floor-by-keyword', 'tensorly/tenalg/svd.py', '        S = tl.sqrt(tl.clip(S, tl.eps(S.dtype)))\n        V = tl.dot(tl.transpose(matrix), U / tl.reshape(S, (1, -1)))', '        floor = tl.eps(S.dtype)\n        S = tl.sqrt(tl.clip(S, a_min=floor))\n        V = tl.dot(tl.transpose(matrix), U / tl.reshape(S, (1, -1)))'),
+    ('C14', 'tucker-user-init-copied', 'tensorly/decomposition/_tucker.py', '        (core, factors) = init\n        factors = list(factors)\n', '        core, user_factors = init\n        factors = [f for f in user_factors]\n'),
     ('C12', 'memo-keyed-by-all-inputs', 'tensorly/tenalg/proximal.py', '    diag_matrix = tl.tensor(\n        tl.diag(2 * regularizer * tl.ones(tl.shape(tensor)[0]) + 1)\n        + tl.diag(-regularizer * tl.ones(tl.shape(tensor)[0] - 1), k=-1)\n        + tl.diag(-regularizer * tl.ones(tl.shape(tensor)[0] - 1), k=1),\n        **tl.context(tensor)\n    )\n    return tl.solve(diag_matrix, tensor)\n', '    key = (tl.get_backend(), tl.shape(tensor)[0], float(regularizer), str(tl.context(tensor)))\n    diag_matrix = _SYSTEMS.get(key)\n    if diag_matrix is None:\n        diag_matrix = tl.tensor(\n            tl.diag(2 * regularizer * tl.ones(tl.shape(tensor)[0]) + 1)\n            + tl.diag(-regularizer * tl.ones(tl.shape(tensor)[0] - 1), k=-1)\n            + tl.diag(-regularizer * tl.ones(tl.shape(tensor)[0] - 1), k=1),\n            **tl.context(tensor)\n        )\n        _SYSTEMS[key] = diag_matrix\n    return tl.solve(diag_matrix, tensor)\n\n\n_SYSTEMS = {}\n'),
     ('C18', 'memo-keyed-by-all-inputs', 'tensorly/tenalg/proximal.py', '    diag_matrix = tl.tensor(\n        tl.diag(2 * regularizer * tl.ones(tl.shape(tensor)[0]) + 1)\n        + tl.diag(-regularizer * tl.ones(tl.shape(tensor)[0] - 1), k=-1)\n        + tl.diag(-regularizer * tl.ones(tl.shape(tensor)[0] - 1), k=1),\n        **tl.context(tensor)\n    )\n    return tl.solve(diag_matrix, tensor)\n', '    key = (tl.get_backend(), tl.shape(tensor)[0], float(regularizer), str(tl.context(tensor)))\n    diag_matrix = _SYSTEMS.get(key)\n    if diag_matrix is None:\n        diag_matrix = tl.tensor(\n            tl.diag(2 * regularizer * tl.ones(tl.shape(tensor)[0]) + 1)\n            + tl.diag(-regularizer * tl.ones(tl.shape(tensor)[0] - 1), k=-1)\n            + tl.diag(-regularizer * tl.ones(tl.shape(tensor)[0] - 1), k=1),\n            **tl.context(tensor)\n        )\n        _SYSTEMS[key] = diag_matrix\n    return tl.solve(diag_matrix, tensor)\n\n\n_SYSTEMS = {}\n'),
     ('C11', 'memo-keyed-by-all-inputs', 'tensorly/tenalg/proximal.py', '    diag_matrix = tl.tensor(\n        tl.diag(2 * regularizer * tl.ones(tl.shape(tensor)[0]) + 1)\n        + tl.diag(-regularizer * tl.ones(tl.shape(tensor)[0] - 1), k=-1)\n        + tl.diag(-regularizer * tl.ones(tl.shape(tensor)[0] - 1), k=1),\n        **tl.context(tensor)\n    )\n    return tl.solve(diag_matrix, tensor)\n', '    key = (tl.get_backend(), tl.shape(tensor)[0], float(regularizer), str(tl.context(tensor)))\n    diag_matrix = _SYSTEMS.get(key)\n    if diag_matrix is None:\n        diag_matrix = tl.tensor(\n            tl.diag(2 * regularizer * tl.ones(tl.shape(tensor)[0]) + 1)\n            + tl.diag(-regularizer * tl.ones(tl.shape(tensor)[0] - 1), k=-1)\n            + tl.diag(-regularizer * tl.ones(tl.shape(tensor)[0] - 1), k=1),\n            **tl.context(tensor)\n        )\n        _SYSTEMS[key] = diag_matrix\n    return tl.solve(diag_matrix, tensor)\n\n\n_SYSTEMS = {}\n'),
@@ -619,7 +627,7 @@ def gen_patch_variants() -> List[Variant]:
     root = os.path.join(HERE, "seeded")
     for meta_path in sorted(glob.glob(os.path.join(root, "*", "meta.json")) + glob.glob(os.path.join(root, "round*", "*", "meta.json"))):
         d = os.path.dirname(meta_path)
-        if os.path.basename(os.path.dirname(d)) == "benign" or os.path.basename(d) == "benign":
+        if os.path.basename(os.path.dirname(d)).startswith("benign") or os.path.basename(d).startswith("benign"):
             continue
         pf = os.path.join(d, "patch.diff")
         if not os.path.exists(pf):
@@ -638,8 +646,9 @@ def gen_patch_variants() -> List[Variant]:
             else:
                 out.append(Variant(prop, vid, "mutant", ov, f"seeded breaking change {name} ({meta.get('property')})"))
     all_props = [f"C{i:02d}" for i in range(1, 21)]
-    for pf in sorted(glob.glob(os.path.join(root, "benign", "*", "patch*.diff"))):
-        name = os.path.basename(os.path.dirname(pf)) + "-" + os.path.basename(pf)[:-5]
+    for pf in sorted(glob.glob(os.path.join(root, "benign*", "*", "patch*.diff"))):
+        rnd = os.path.basename(os.path.dirname(os.path.dirname(pf)))
+        name = ("" if rnd == "benign" else rnd + "-") + os.path.basename(os.path.dirname(pf)) + "-" + os.path.basename(pf)[:-5]
         ov = apply_unified(open(pf).read())
         for prop in all_props:
             vid = f"{prop}:benign-patch:{name}"
